@@ -1660,6 +1660,17 @@ fn paused_probe_case(r: &mut Rng) -> (String, String) {
 fn plan_texts(ctx: &mut Ctx, words: &[String], n: usize, plan: &mut Plan) {
     // the soups never name the shadowed words' originals — they are shadowed in the child anyway
     let soup_words: Vec<String> = words.iter().filter(|w| !DESTRUCTIVE.contains(&w.as_str())).cloned().collect();
+    // builders whose contents reach below their own mark (`{`, `[`, `^{` opened on a stack that the body then eats into):
+    // every one of them is an error value, in every drive mode — always part of the plan, whatever the random stream does
+    for text in ["1 { drop }", "1 2 ^{ drop drop ^}", "1 [ drop drop ]", "1 2 3 { drop drop 7 }", "{ drop }", "[ drop ]", "5 ^{ drop ^}", "1 { [ drop drop ] }", "1 2 { swap drop drop 3 4 }",
+        ": b { drop } ; 1 b", "1 [ { drop drop } ]", "1 2 [ rot ]", "9 { 1 2 rot }", "1 { over }", "1 #( { drop } #)", "1 2 [ drop { drop ]"] {
+        for _ in 0..2 {
+            let mut r = ctx.rng.fork();
+            let (line, shown) = text_case(&mut r, text, false);
+            ctx.tag("text:builder-underflow");
+            plan.push(line, shown);
+        }
+    }
     for i in 0..n {
         let mut r = ctx.rng.fork();
         let kind = r.below(100);
